@@ -284,9 +284,22 @@ Definition is_concluded (D : disputes) (id : bytes) : bool :=
   match bfind D id with Some d => dphase_eqb (d_phase d) DConcluded | None => false end.
 
 (* ---------- progress (force execution) ---------- *)
+(* the payment app's rule as the contract applies it (dimensions have been checked before): nobody but the
+   actor pays *)
+Fixpoint lpay_row (actor : N) (j : N) (from to : list Z) : bool :=
+  match from, to with
+  | f :: from', t :: to' =>
+      (if j =? actor then (t <=? f)%Z else (f <=? t)%Z) && lpay_row actor (j + 1) from' to'
+  | _, _ => true
+  end.
+Fixpoint lpay_rows (actor : N) (from to : list (list Z)) : bool :=
+  match from, to with
+  | f :: from', t :: to' => lpay_row actor 0 f t && lpay_rows actor from' to'
+  | _, _ => true
+  end.
 Definition app_rule (k : appkind) (old new : state) (actor : N) : bool :=
   match k with
-  | KPay => is_nodata (st_data new) && pay_rows actor (al_bals (st_alloc old)) (al_bals (st_alloc new))
+  | KPay => is_nodata (st_data new) && lpay_rows actor (al_bals (st_alloc old)) (al_bals (st_alloc new))
   | KMock => match mock_op (st_data old) with Some o => o =? 0 | None => false end
   end.
 Definition chain_transition_ok (p : lparams) (k : appkind) (old new : state) (actor : N) : bool :=
